@@ -97,6 +97,30 @@ def run(payload):
                         fail(f"expression_pde_interpreted_vs_{backend}", grid=repr(grid), max_dev=float(np.max(np.abs(a - b))))
             except Exception as e:
                 fail("expression_pde_error", error=f"{type(e).__name__}: {str(e)[:300]}")
+    # ---- complex right-hand side on a real state (single field and collection): the interpreted rate keeps the imaginary part
+    from pde import PDE as _PDE
+    g = UnitGrid([6], periodic=True)
+    for kind in ("field", "collection"):
+        for backend in ("numpy", "numba"):
+            cases += 1
+            try:
+                if kind == "field":
+                    eq, st = _PDE({"c": "I * laplace(c)"}), ScalarField(g, np.cos(np.arange(6.0)))
+                else:
+                    eq, st = _PDE({"u": "I * laplace(v)", "v": "laplace(u)"}), FieldCollection([ScalarField(g, np.cos(np.arange(6.0))), ScalarField(g, np.sin(np.arange(6.0)))])
+                lap = lambda f: f.laplace("periodic").data
+                want = 1j * lap(st) if kind == "field" else np.array([1j * lap(st[1]), lap(st[0]) + 0j])
+                if backend == "numpy":
+                    a = eq.evolution_rate(st, 0.0).data
+                else:
+                    try:
+                        a = eq.make_pde_rhs(st, backend=backend)(st.data.astype(complex), 0.0)
+                    except Exception:
+                        continue  # the compiled collection route refuses complex data with a typing error (an exception, not a wrong result)
+                if not np.allclose(a, want, rtol=1e-10, atol=1e-12):
+                    fail("complex_rate_of_a_real_state_loses_its_imaginary_part", state=kind, backend=backend, max_dev=float(np.max(np.abs(a - want))), dtype=str(a.dtype))
+            except Exception as e:
+                fail("rate_error", eq="complex rhs on real state", state=kind, backend=backend, error=f"{type(e).__name__}: {str(e)[:200]}")
     return {"ok": True, "cases": cases, "failures": fails}
 
 
